@@ -5,6 +5,7 @@ import (
 
 	"verif/checker/internal/an"
 	"verif/checker/internal/load"
+	"verif/checker/internal/rep"
 
 	"golang.org/x/tools/go/ssa"
 )
@@ -25,7 +26,7 @@ func residueReachSigned(fn *ssa.Function, isAtom func(ssa.Value) bool, target ss
 	any, all = map[int64]bool{}, map[int64]bool{}
 	for r := int64(0); r < 4; r++ {
 		all[r] = true
-		for _, id := range []int64{r, r + 4, r - 4, r - 1<<32, -1 << 63 + r, 1<<62 + r} {
+		for _, id := range []int64{r, r + 4, r - 4, r - 1<<32, -1<<63 + r, 1<<62 + r} {
 			id := id
 			reach := an.ReachWith(fn, nil, func(i *ssa.If) (int, bool) {
 				v, ok := an.EvalCond(i.Cond, func(x ssa.Value) (int64, bool) {
@@ -67,6 +68,8 @@ func c04(c *Ctx) {
 	r.Rule("R04.E", "every exit of the three readers that returns no message returns a certainly non-nil error", 12)
 	tr := an.NewTracer()
 	c04Refusals(c)
+	r.Rule("R04.P", "every panic-capable operation (slice, index, allocation, assertion, explicit panic) reachable from the packet readers — transport.ReadMsg, both deserialisers, the IGE wrappers and block loops — is discharged by a checked side condition or accepted with a reason", 5)
+	defer c04Census(c)
 
 	f := c.fn("R04.G", load.MsgPkg, "", "DeserializeEncrypted")
 	if f != nil {
@@ -227,6 +230,97 @@ func c04(c *Ctx) {
 			}
 		}
 	}
+}
+
+// c04Census: R04.P.
+func c04Census(c *Ctx) {
+	r := c.R
+	var entries []*ssa.Function
+	for _, t := range []struct{ pkg, recv, name string }{{load.TransPkg, "*transport", "ReadMsg"}, {load.MsgPkg, "", "DeserializeEncrypted"}, {load.MsgPkg, "", "DeserializeUnencrypted"}} {
+		if f := c.fn("R04.P", t.pkg, t.recv, t.name); f != nil {
+			entries = append(entries, f)
+		}
+	}
+	stop := func(f *ssa.Function) bool {
+		p := load.FuncPkgPath(f)
+		// the TL decoder is C15's region; the frame readers (length of a frame, not of a packet) are C08's
+		return p == load.TLPkg || p == load.ObjPkg || p == load.TgPkg || p == load.RootMod || p == load.ModePkg
+	}
+	fns := c.censusRegion(entries, stop)
+	conds := map[string]bool{}
+	// ige-input-validated: both block loops are entered only through the nil edge of isCorrectData(in)
+	okV := true
+	for _, name := range []string{"doAES256IGEencrypt", "doAES256IGEdecrypt"} {
+		f := c.P.Func(load.IgePkg, "*Cipher", name)
+		if f == nil {
+			okV = false
+			continue
+		}
+		var effects []ssa.Instruction
+		for _, cs := range an.Calls(f) {
+			if strings.HasPrefix(cs.Name, "invoke:(crypto/cipher.Block).") || cs.Name == load.IgePkg+".xor" || cs.Name == "builtin:copy" {
+				effects = append(effects, cs.Instr)
+			}
+		}
+		guarded := false
+		for _, i := range an.Ifs(f) {
+			cd, ok := an.Classify(i)
+			if !ok || cd.Kind != "nil" {
+				continue
+			}
+			call, ok := cd.X.(*ssa.Call)
+			if ok && an.CalleeName(call.Common()) == load.IgePkg+".isCorrectData" && len(call.Call.Args) == 1 && len(f.Params) > 1 && call.Call.Args[0] == ssa.Value(f.Params[1]) {
+				if len(effects) >= 3 && len(an.Guarded(f, []an.Edge{cd.EdgeWhen(true)}, effects)) == 0 {
+					guarded = true
+				}
+			}
+		}
+		okV = okV && guarded
+	}
+	conds["ige-input-validated"] = okV
+	// iv-is-32-bytes: the iv expressions of both key schedules have length 32
+	okIV := false
+	if g := c.P.Func(load.IgePkg, "", "generateAESIGE"); g != nil {
+		okIV = true
+		for _, d := range []string{"false", "true"} {
+			e := c.termEval([]string{"msg_key", "auth_key", "decode"}, map[int]*an.T{2: an.Sym(d)})
+			res, ok := e.Eval(g)
+			if !ok || len(res.Results) != 2 {
+				okIV = false
+				continue
+			}
+			if n, known := an.TermLen(res.Results[1]); !known || n != 32 {
+				okIV = false
+			}
+		}
+		if t := c.P.Func(load.IgePkg, "", "generateTempKeys"); t != nil {
+			e := c.termEval([]string{"new_nonce", "server_nonce"}, nil)
+			res, ok := e.Eval(t)
+			if !ok || len(res.Results) != 2 {
+				okIV = false
+			} else if n, known := an.TermLen(res.Results[1]); !known || n != 32 {
+				okIV = false
+			}
+		}
+	}
+	conds["iv-is-32-bytes"] = okIV
+	// r04b-window-bounded: R04.B held in this run
+	okB, nB := true, 0
+	for _, o := range r.Obls {
+		if o.Rule == "R04.B" {
+			nB++
+			if o.Verdict != rep.Holds {
+				okB = false
+			}
+		}
+	}
+	conds["r04b-window-bounded"] = okB && nB > 0
+	n, d, a := c.runCensus("R04.P", fns, nil, conds, "C15/R15.C", "C16/R16.P")
+	r.Extra["census_functions"] = len(fns)
+	r.Extra["census_sites"] = n
+	r.Extra["census_discharged"] = d
+	r.Extra["census_accepted"] = a
+	r.Extra["census_conditions"] = conds
 }
 
 // c04Refusals: R04.E — an exit that hands back no message must hand back an error (a refusal that returns
